@@ -462,6 +462,96 @@ namespace {
    }
 }
 
+   // ---- wide overload sets and long member lists ----
+   // One name declared with N pairwise distinct types (N far beyond the three per name of the histories): after EVERY
+   // addition every type entered so far selects its first declaration; then every pair is declared again (in another order)
+   // and master / decl_set are checked.  Member lists with hundreds of members: position == index, lookup finds each.
+   void wide(int N, int long_list)
+   {
+      HWitness hw;
+      hw.container = "wide-overload-set";
+      hw.ops = { N };
+      hw.text = "one name with " + std::to_string(N) + " distinct types";
+      for (int kind = 0; kind < 3; ++kind) {
+         ipr::impl::Lexicon lex;
+         ipr::impl::Translation_unit unit{ lex };
+         auto* region = unit.global_region()->make_subregion();
+         const ipr::Scope& scope = static_cast<const ipr::Region&>(*region).bindings();
+         auto& name = lex.get_identifier(u8"overloaded");
+         std::vector<const ipr::Type*> types;
+         std::vector<const ipr::Decl*> first;
+         const ipr::Type* t = &lex.int_type();
+         ipr::impl::Warehouse<ipr::Type> wh;
+         for (int i = 0; i < N; ++i) {
+            if (kind == 1) { wh.push_back(i % 2 ? lex.char_type() : lex.int_type()); t = &lex.get_function(lex.get_product(wh), lex.void_type()); }
+            else t = i % 3 == 2 ? static_cast<const ipr::Type*>(&lex.get_reference(*types[std::size_t(i - 2)])) : static_cast<const ipr::Type*>(&lex.get_pointer(*t));
+            types.push_back(t);
+            const ipr::Decl* d = kind == 1 ? static_cast<const ipr::Decl*>(region->declare_fun(name, *static_cast<const ipr::Function*>(t)))
+                                 : kind == 0 ? static_cast<const ipr::Decl*>(region->declare_var(name, *t)) : static_cast<const ipr::Decl*>(region->declare_field(name, *t));
+            first.push_back(d);
+            rep.count("transitions"); rep.count("states");
+            auto ovl = scope[name];
+            if (not ovl.is_valid()) { hfail("C07:lookup:declared-name-not-found", hw, "a name declared with " + std::to_string(i + 1) + " types is not found"); break; }
+            bool ok = true;
+            for (int k = 0; k <= i and ok; ++k) {
+               auto sel = ovl.get()[*types[std::size_t(k)]];
+               rep.count("transitions");
+               if (not sel.is_valid()) { hfail("C07:select:declared-type-not-found", hw, "type #" + std::to_string(k) + " of " + std::to_string(i + 1) + " entered under one name selects nothing"); ok = false; }
+               else if (&sel.get() != first[std::size_t(k)]) { hfail("C07:select:not-first-declaration", hw, "type #" + std::to_string(k) + " of " + std::to_string(i + 1) + " selects another declaration"); ok = false; }
+            }
+            if (not ok) break;
+            if (scope.size() != std::size_t(i + 1)) { hfail("C07:elements:size", hw, "the scope does not list every declaration"); break; }
+         }
+         if (int(first.size()) != N) continue;
+         // second round, descending: each is a redeclaration
+         for (int k = N - 1; k >= 0; --k) {
+            const ipr::Decl* d = kind == 1 ? static_cast<const ipr::Decl*>(region->declare_fun(name, *static_cast<const ipr::Function*>(types[std::size_t(k)])))
+                                 : kind == 0 ? static_cast<const ipr::Decl*>(region->declare_var(name, *types[std::size_t(k)])) : static_cast<const ipr::Decl*>(region->declare_field(name, *types[std::size_t(k)]));
+            rep.count("transitions");
+            bool bad = false;
+            try {
+               if (&d->master() != first[std::size_t(k)]) { hfail("C07:master:not-first-declaration", hw, "redeclaring type #" + std::to_string(k) + " of " + std::to_string(N) + " under one name does not join the first declaration"); bad = true; }
+               else if (d->decl_set().size() != 2 or first[std::size_t(k)]->decl_set().size() != 2) { hfail("C07:decl-set:size", hw, "the declaration-set of type #" + std::to_string(k) + " of " + std::to_string(N) + " does not hold both declarations"); bad = true; }
+               auto sel = scope[name].get()[*types[std::size_t(k)]];
+               if (not sel.is_valid() or &sel.get() != first[std::size_t(k)]) { hfail("C07:select:not-first-declaration", hw, "after a redeclaration, selecting type #" + std::to_string(k) + " does not yield the first declaration"); bad = true; }
+            }
+            catch (const std::exception& e) { hfail("C07:master:refused", hw, std::string("master()/decl_set() refused: ") + e.what()); bad = true; }
+            if (bad) break;
+         }
+         rep.count("traces");
+      }
+      // long member lists
+      {
+         ipr::impl::Lexicon lex;
+         ipr::impl::Translation_unit unit{ lex };
+         auto& region = *unit.global_region();
+         hw.container = "long-member-list";
+         hw.ops = { long_list };
+         hw.text = std::to_string(long_list) + " members";
+         auto nm = [&](int i) -> const ipr::Name& { return lex.get_identifier(std::u8string(u8"p") + char8_t('a' + i % 26) + char8_t('a' + i / 26 % 26) + char8_t('a' + i / 676 % 26) + char8_t('a' + i / 17576 % 26)); };
+         auto* map = lex.make_mapping(region, ipr::Mapping_level{ 1 });
+         auto* en = lex.make_enum(region, ipr::Enum::Kind::Legacy);
+         std::vector<const ipr::Parameter*> ps;
+         std::vector<const ipr::Enumerator*> es;
+         for (int i = 0; i < long_list; ++i) { ps.push_back(map->param(nm(i), lex.int_type())); es.push_back(en->add_member(nm(i))); }
+         const ipr::Scope& psc = static_cast<const ipr::Mapping&>(*map).parameters().region().bindings();
+         const ipr::Scope& esc = static_cast<const ipr::Enum&>(*en).region().bindings();
+         for (int i = 0; i < long_list; ++i) {
+            rep.count("transitions", 2);
+            if (std::size_t(ps[std::size_t(i)]->position()) != std::size_t(i)) { hfail("C07:parameter-list:position", hw, "parameter #" + std::to_string(i) + " reports position " + std::to_string(std::size_t(ps[std::size_t(i)]->position()))); break; }
+            if (std::size_t(es[std::size_t(i)]->position()) != std::size_t(i)) { hfail("C07:enumeration:position", hw, "enumerator #" + std::to_string(i) + " reports position " + std::to_string(std::size_t(es[std::size_t(i)]->position()))); break; }
+            if (i % 97 == 0 or i + 1 == long_list) {
+               auto o = psc[nm(i)];
+               if (not o.is_valid() or not o.get()[lex.int_type()].is_valid() or &o.get()[lex.int_type()].get() != static_cast<const ipr::Decl*>(ps[std::size_t(i)])) { hfail("C07:parameter-list:lookup-not-found", hw, "parameter #" + std::to_string(i) + " is not found by name and type"); break; }
+               auto q = esc[nm(i)];
+               if (not q.is_valid()) { hfail("C07:enumeration:lookup-not-found", hw, "enumerator #" + std::to_string(i) + " is not found by name"); break; }
+            }
+         }
+         rep.count("states", 2LL * long_list);
+         rep.count("traces");
+      }
+   }
+
 int main(int argc, char** argv)
 {
    opt = vf::parse_options(argc, argv);
@@ -471,7 +561,11 @@ int main(int argc, char** argv)
       verbose = true;
       auto text = vf::slurp(opt.replay);
       auto ops = vf::json_int_array(text, "ops");
-      if (text.find("\"container\"") != std::string::npos) {
+      if (text.find("\"wide-overload-set\"") != std::string::npos or text.find("\"long-member-list\"") != std::string::npos) {
+         std::printf("replay C07: wide overload sets / long member lists (%lld)\n", ops.empty() ? 0 : ops[0]);
+         wide(40, ops.empty() ? 300 : int(std::max<long long>(300, ops[0])));
+      }
+      else if (text.find("\"container\"") != std::string::npos) {
          std::printf("replay C07: the homogeneous-container sweep is re-run in full\n");
          opt.shards = 1;
          homogeneous(5);
@@ -486,6 +580,8 @@ int main(int argc, char** argv)
    }
    const bool deep = opt.thorough();
    homogeneous(5);
+   if (opt.shard == 0) wide(12, 300);
+   if (opt.shard == 1 % opt.shards) wide(deep ? 200 : 40, deep ? 70000 : 1100);
    observe_depth = deep ? 7 : 5;
    enumerate(deep ? 8 : 6);
    if (opt.shard == 0) {
